@@ -1,6 +1,7 @@
 package main
 
 import (
+	"path/filepath"
 	"fmt"
 	"go/types"
 	"os"
@@ -23,6 +24,9 @@ type Engine struct {
 	cs    *Contracts
 	mu    sync.Mutex
 	funcs map[string]*ssa.Function // key pkgpath.Name (SSA relative string)
+
+	recorded    map[string]*funcLocals             // /verif/locals.json: names the contracts were written against
+	renameCache map[*ssa.Function]map[string]string // recorded name -> current name
 
 	// per function-run symbol tables (reset by newRun)
 	stringMode    bool
@@ -112,6 +116,13 @@ func LoadEngine(repo string, patterns []string) (*Engine, error) {
 		}
 	}
 	e.findReadOnlyGlobals()
+	lp := os.Getenv("VERIF_LOCALS")
+	if lp == "" {
+		if exe, err := os.Executable(); err == nil {
+			lp = filepath.Join(filepath.Dir(filepath.Dir(exe)), "locals.json")
+		}
+	}
+	e.loadLocals(lp)
 	return e, nil
 }
 
